@@ -144,10 +144,22 @@ pub struct RouteCase {
     pub backend: u8,
     pub flush_rows: u8,
     pub batches: Vec<SBatch>,
+    /// where the split point lies: 0 = ten minutes ago, 1 = exactly at the epoch, 2 = 7 s after
+    /// it (rows on both sides of zero: the sign of a row's timestamp differs from the split point's)
+    #[serde(default)]
+    pub sp_sel: u8,
 }
 
 const HOSTS: [&str; 3] = ["a", "b", "c"];
 const METRICS: [&str; 2] = ["cpu", "mem"];
+
+fn sp_of(sel: u8) -> i64 {
+    match sel % 3 {
+        0 => sp_now(),
+        1 => 0,
+        _ => 7_000_000_000,
+    }
+}
 
 fn sp_now() -> i64 {
     // split point: 10 minutes ago, on a 5-minute boundary
@@ -183,10 +195,10 @@ struct Ingested {
     sp: i64,
 }
 
-async fn ingest_split(phase: u8, backend: u8, flush_rows: u8, batches: &[SBatch]) -> Result<Ingested, (String, String)> {
+async fn ingest_split(phase: u8, backend: u8, flush_rows: u8, batches: &[SBatch], sp_sel: u8) -> Result<Ingested, (String, String)> {
     let store: Arc<dyn object_store::ObjectStore> = Arc::new(object_store::memory::InMemory::new());
     let inner: Arc<dyn MetadataClient> = if backend % 2 == 0 { Arc::new(LocalMetadataClient::new()) } else { Arc::new(ObjectStoreMetadataClient::new(store.clone(), ObjectStoreMetadataConfig::default())) };
-    let sp = sp_now();
+    let sp = sp_of(sp_sel);
     let md = Arc::new(SplitMeta { inner: inner.clone(), phase: if phase % 2 == 0 { SplitPhase::DualWrite } else { SplitPhase::Backfill }, split_point: sp, live: None });
     let cfg = IngesterConfig { flush_row_count: 1 + (flush_rows % 8) as usize, flush_interval: std::time::Duration::from_millis(50), wal: WalConfig { enabled: false, ..Default::default() }, ..Default::default() };
     let ing = Arc::new(Ingester::new(cfg, store.clone(), md, storage_config(), MetricSchema::default_metrics()));
@@ -219,7 +231,7 @@ pub fn exec_route(case: &RouteCase) -> Outcome {
     let rt = rt_plain();
     rt.block_on(async {
         let mut out = Outcome::pass();
-        let ig = match ingest_split(case.phase, case.backend, case.flush_rows, &case.batches).await {
+        let ig = match ingest_split(case.phase, case.backend, case.flush_rows, &case.batches, case.sp_sel).await {
             Ok(i) => i,
             Err((s, m)) => {
                 out.set_fail(s, m);
@@ -459,7 +471,7 @@ pub fn exec_e2e(case: &E2eCase) -> Outcome {
         let mut out = Outcome::pass();
         // Int64-timestamp batches only (Timestamp-typed ones are rejected during a split: routing sub-check)
         let batches: Vec<SBatch> = case.route.batches.iter().map(|b| SBatch { rows: b.rows.clone(), ts_type: 0 }).collect();
-        let ig = match ingest_split(case.route.phase, case.route.backend, case.route.flush_rows, &batches).await {
+        let ig = match ingest_split(case.route.phase, case.route.backend, case.route.flush_rows, &batches, case.route.sp_sel).await {
             Ok(i) => i,
             Err((s, m)) => {
                 out.set_fail(s, m);
@@ -554,6 +566,8 @@ pub struct LifeCase {
     /// written through the ingester in the back-fill phase (after the back-fill ran)
     pub late: Vec<SBatch>,
     pub queries: Vec<u8>,
+    #[serde(default)]
+    pub sp_sel: u8,
 }
 
 async fn ingest_live(store: &Arc<dyn object_store::ObjectStore>, inner: &Arc<dyn MetadataClient>, flush_rows: u8, sp: i64, batches: &[SBatch], rid: &mut i64, accepted: &mut Vec<RecordBatch>) -> Result<(), (String, String)> {
@@ -626,7 +640,10 @@ pub fn exec_lifecycle(case: &LifeCase) -> Outcome {
         let mut out = Outcome::pass();
         let store: Arc<dyn object_store::ObjectStore> = Arc::new(object_store::memory::InMemory::new());
         let inner: Arc<dyn MetadataClient> = if case.backend % 2 == 0 { Arc::new(LocalMetadataClient::new()) } else { Arc::new(ObjectStoreMetadataClient::new(store.clone(), ObjectStoreMetadataConfig::default())) };
-        let sp = sp_now();
+        let sp = sp_of(case.sp_sel);
+        if case.sp_sel % 3 != 0 {
+            out.class("split-point-at-the-epoch:rows-of-either-sign");
+        }
         let mut rid = 0i64;
         let mut all: Vec<RecordBatch> = Vec::new();
         // the old shard's stored history: chunks whose path carries the shard id (that is how
@@ -702,25 +719,25 @@ fn srow() -> impl Strategy<Value = SRow> {
 }
 
 fn route_case(ts_types: u8) -> impl Strategy<Value = RouteCase> {
-    (0u8..2, 0u8..2, 0u8..8, prop::collection::vec((prop::collection::vec(srow(), 1..6), 0u8..ts_types).prop_map(|(rows, ts_type)| SBatch { rows, ts_type }), 1..5)).prop_map(|(phase, backend, flush_rows, batches)| RouteCase { phase, backend, flush_rows, batches })
+    (0u8..2, 0u8..2, 0u8..8, prop::collection::vec((prop::collection::vec(srow(), 1..6), 0u8..ts_types).prop_map(|(rows, ts_type)| SBatch { rows, ts_type }), 1..5)).prop_map(|(phase, backend, flush_rows, batches)| RouteCase { phase, backend, flush_rows, batches, sp_sel: 0 })
 }
 
 pub fn def() -> PropDef {
     PropDef {
         id: "C15",
         level: "exploration",
-        rule: "routing: real Ingester whose catalog reports a DualWrite / Backfill split (generated split point) for the computed shard; 1-4 batches of 1-5 rows with timestamps 2 steps below .. exactly at .. 2 steps above the split point, 2 metrics, nullable host, Int64 timestamps (Timestamp(ns)-typed batches as a separate class), both catalog back-ends; oracle: chunks under each new shard's path hold exactly the accepted rows on its side (split-point rows in the upper shard), each once, and the old-shard chunks hold every accepted row. e2e: QueryNode on data dual-written by the ingester, 6 query shapes incl. count / sum / group by, vs the same SQL over a MemTable of the accepted rows. Non-trivial = rows on both sides of / at the split point, or >=2 series per (timestamp, metric), or copies present. lifecycle: an old shard with 1-3 stored chunks (paths carry the shard id), real start_split -> dual-write phase with 0-2 batches through the ingester (which sees the catalog's real split state) -> the real ShardSplitter::run_backfill -> 0-2 more batches; the same queries against a fresh QueryNode before the split, in the dual-write phase, after the back-fill and after the late writes, each vs the MemTable reference. Non-trivial there = back-fill copies exist and something was dual-written.",
+        rule: "routing: real Ingester whose catalog reports a DualWrite / Backfill split (split point ten minutes ago, exactly at the epoch, or 7 s after it - rows of either sign around it) for the computed shard; 1-4 batches of 1-5 rows with timestamps 2 steps below .. exactly at .. 2 steps above the split point, 2 metrics, nullable host, Int64 timestamps (Timestamp(ns)-typed batches as a separate class), both catalog back-ends; oracle: chunks under each new shard's path hold exactly the accepted rows on its side (split-point rows in the upper shard), each once, and the old-shard chunks hold every accepted row. e2e: QueryNode on data dual-written by the ingester, 6 query shapes incl. count / sum / group by, vs the same SQL over a MemTable of the accepted rows. Non-trivial = rows on both sides of / at the split point, or >=2 series per (timestamp, metric), or copies present. lifecycle: an old shard with 1-3 stored chunks (paths carry the shard id), real start_split -> dual-write phase with 0-2 batches through the ingester (which sees the catalog's real split state) -> the real ShardSplitter::run_backfill -> 0-2 more batches; the same queries against a fresh QueryNode before the split, in the dual-write phase, after the back-fill and after the late writes, each vs the MemTable reference. Non-trivial there = back-fill copies exist and something was dual-written.",
         assumptions: &["for genuinely identical ingested rows any multiplicity between 1 and the ingested one is accepted", "DataFusion's evaluator is the trusted reference for the end-to-end part"],
         subs: || {
             vec![
-                Box::new(Sub::<RouteCase> { name: "routing", cases: |t| t.scale(5_000, 6), strategy: |_| route_case(2).boxed(), exec: exec_route }),
-                Box::new(Sub::<E2eCase> { name: "e2e", cases: |t| t.scale(2_000, 5), strategy: |_| (route_case(1), prop::collection::vec(0u8..6, 1..4)).prop_map(|(route, queries)| E2eCase { route, queries }).boxed(), exec: exec_e2e }),
+                Box::new(Sub::<RouteCase> { name: "routing", cases: |t| t.scale(5_000, 6), strategy: |_| (route_case(2), prop_oneof![3 => Just(0u8), 1 => Just(1u8), 1 => Just(2u8)]).prop_map(|(mut r, s)| { r.sp_sel = s; r }).boxed(), exec: exec_route }),
+                Box::new(Sub::<E2eCase> { name: "e2e", cases: |t| t.scale(2_000, 5), strategy: |_| (route_case(1), prop::collection::vec(0u8..6, 1..4), prop_oneof![3 => Just(0u8), 1 => Just(1u8), 1 => Just(2u8)]).prop_map(|(mut route, queries, s)| { route.sp_sel = s; E2eCase { route, queries } }).boxed(), exec: exec_e2e }),
                 Box::new(Sub::<LifeCase> {
                     name: "lifecycle",
                     cases: |t| t.scale(1_500, 5),
                     strategy: |_| {
                         let sb = || prop::collection::vec(srow(), 1..6).prop_map(|rows| SBatch { rows, ts_type: 0 });
-                        (0u8..2, 0u8..8, prop::collection::vec(sb(), 1..4), prop::collection::vec(sb(), 0..3), prop::collection::vec(sb(), 0..3), prop::collection::vec(0u8..6, 1..4)).prop_map(|(backend, flush_rows, history, dual, late, queries)| LifeCase { backend, flush_rows, history, dual, late, queries }).boxed()
+                        (0u8..2, 0u8..8, prop::collection::vec(sb(), 1..4), prop::collection::vec(sb(), 0..3), prop::collection::vec(sb(), 0..3), prop::collection::vec(0u8..6, 1..4), prop_oneof![3 => Just(0u8), 1 => Just(1u8), 1 => Just(2u8)]).prop_map(|(backend, flush_rows, history, dual, late, queries, sp_sel)| LifeCase { backend, flush_rows, history, dual, late, queries, sp_sel }).boxed()
                     },
                     exec: exec_lifecycle,
                 }),
